@@ -38,7 +38,9 @@ CORE_SPECS = [
     ('first-through-nullable-prefix', 'S->A S x | y; A->B C; B->b | eps; C->c | eps'),
     ('nullable-leftrec-two-levels', 'S->P Q z; P->P p | eps; Q->Q P q | eps'),
     ('leftrec-nullable-middle', 'S->a L L b; L->L c | eps'),
+    ('nullable-mutual-recursion', 'S->A e; A->B x | eps; B->A C; C->eps'),
     # not LR(1): conflicts must be reported
+    ('nullable-memo-order', 'N0->a N2 | c N4 | N4 N1; N1->a c; N2->c N3 | N4 N4 | b a; N3->N3 N3 | a; N4->N0 N2 | a N1 | N2 b | eps'),
     ('ambig-expr', 'E->E + E | E * E | i'),
     ('dangling-else', 'S->i S | i S e S | x'),
     ('rr-basic', 'S->A | B; A->a; B->a'),
